@@ -16,6 +16,15 @@ def opGuard (args : List String) : String :=
     match Field.all.find? (fun x => x.name == f), clsOfName c with
     | some fld, some cl => outcomeName (expected fld cl)
     | _, _ => "unknown"
+  | "compose" :: rest =>
+    -- f1 c1 f2 c2 …  →  the outcome of main's validation when all these inputs hold these classes at once
+    let rec pairs : List String → List (Field × NumClass)
+      | f :: c :: r =>
+        match Field.all.find? (fun x => x.name == f), clsOfName c with
+        | some fld, some cl => (fld, cl) :: pairs r
+        | _, _ => pairs r
+      | _ => []
+    outcomeName (composeOutcome ((pairs rest).map fun fc => expected fc.1 fc.2))
   | ["caught", which, e] =>
     let hs := if which == "kernel" then Pmn.Const.kernelCaught else Pmn.Const.setupCaught
     match ([Exc.ZeroDivisionError, .OverflowError, .FloatingPointError, .ArithmeticError, .ValueError,
